@@ -1,14 +1,16 @@
 #!/bin/bash
 # tools/seed_verify.sh <seed-dir> <demo-src> <demo-dst-relative> <demo cargo args...>
-# 1. fresh scratch worktree, apply patch, run the WHOLE repository suite (must pass);
+# 1. scratch worktree at /repo HEAD (kept between calls so that only what changed is rebuilt;
+#    remove it with tools/seed_verify.sh --clean), apply patch, run the WHOLE repository suite (must pass);
 # 2. copy the demo, run it (must FAIL with the change);
 # 3. reverse the patch, run the demo (must PASS).
-seed="$1"; demosrc="$2"; demodst="$3"; shift 3
 wt=/tmp/sv-wt
 export CARGO_TARGET_DIR=/tmp/sv-target CARGO_NET_OFFLINE=true
-git -C /repo worktree remove --force $wt >/dev/null 2>&1
-git -C /repo worktree add -q --detach $wt HEAD || exit 2
+if [ "$1" = "--clean" ]; then git -C /repo worktree remove --force $wt 2>/dev/null; rm -rf /tmp/sv-target; exit 0; fi
+seed="$1"; demosrc="$2"; demodst="$3"; shift 3
+if [ ! -d $wt ]; then git -C /repo worktree add -q --detach $wt HEAD || exit 2; fi
 cd $wt || exit 2
+git checkout -q --detach "$(git -C /repo rev-parse HEAD)" && git checkout -q -- . && git clean -fdq || exit 2
 git apply "$seed/patch.diff" || { echo "PATCH DOES NOT APPLY"; exit 2; }
 cargo test --workspace --no-fail-fast --offline > /tmp/sv-suite.log 2>&1
 echo "suite with change: $(grep -E '^test result' /tmp/sv-suite.log | awk '{p+=$4; f+=$6} END {print "passed",p,"failed",f}') $(grep -cE '^error' /tmp/sv-suite.log) build errors"
@@ -16,4 +18,4 @@ mkdir -p "$(dirname "$demodst")"; cp "$demosrc" "$demodst"
 cargo test --offline "$@" > /tmp/sv-demo1.log 2>&1; echo "demo WITH change: rc=$? $(grep -E '^test result|panicked' /tmp/sv-demo1.log | head -2 | tr '\n' ' ' | cut -c1-200)"
 git apply -R "$seed/patch.diff"
 cargo test --offline "$@" > /tmp/sv-demo2.log 2>&1; echo "demo WITHOUT change: rc=$? $(grep -E '^test result' /tmp/sv-demo2.log | head -1)"
-cd /; git -C /repo worktree remove --force $wt
+git checkout -q -- . ; git clean -fdq
